@@ -340,7 +340,7 @@ func c04RunWatch(t *testing.T, in c04WatchIn) (obs c04WatchObs) {
 	if p == nil {
 		return
 	}
-	defer p.Close()
+	defer func() { p.Close() }() // the generation that is live at the end
 	obs.Valid = true
 	sp := p.mainPool
 
@@ -401,6 +401,19 @@ func c04RunWatch(t *testing.T, in c04WatchIn) (obs c04WatchObs) {
 			reg.report(st.Set)
 			reg.notify <- &serviceregistry.RegistryEvent{UseReplace: true, Replace: c04RegMap(st.Set, "svc")}
 			wantListed++
+		case "regen":
+			// pipeline update: the next generation of the pool is created (initial listing + watcher
+			// registration with its priming listing) BEFORE the previous generation is closed
+			reg.set(prev)
+			cur = prev
+			p2 := c04NewProxy(c04ProxyYAML(pin, c04RegName, false), c04Super)
+			if p2 == nil {
+				t.Fatal("c04: next generation rejected")
+			}
+			wantListed += 2
+			old := p
+			p, sp = p2, p2.mainPool
+			old.Close()
 		case "rereg":
 			// driver reload: drain (a report of the unchanged content), deregister, register again, and
 			// the new generation reports its content (first sync)
@@ -653,6 +666,18 @@ func c04GenWatch(r *vfRand, adv bool) c04WatchIn {
 		st := c04WStep{Set: c04GenSet(r, &next, r.Chance(2, 3)), Kind: "rereg"}
 		at := r.Intn(len(in.Steps) + 1)
 		in.Steps = append(in.Steps[:at], append([]c04WStep{st}, in.Steps[at:]...)...)
+	}
+	if r.Chance(1, 4) || (adv && r.Chance(1, 2)) { // two or three pool generations (create next, close previous), then a report
+		at := r.Intn(len(in.Steps) + 1)
+		gens := []c04WStep{}
+		for j := r.Range(2, 3); j > 0; j-- {
+			gens = append(gens, c04WStep{Set: []c04Inst{}, Kind: "regen"})
+			if r.Chance(1, 4) {
+				gens = append(gens, c04WStep{Set: c04GenSet(r, &next, false), Kind: r.PickStr("apply", "replace")})
+			}
+		}
+		gens = append(gens, c04WStep{Set: c04GenSet(r, &next, r.Chance(3, 4)), Kind: r.PickStr("apply", "replace")})
+		in.Steps = append(in.Steps[:at], append(gens, in.Steps[at:]...)...)
 	}
 	in.Seed = int64(r.Intn(1 << 30))
 	m := r.Range(1, 6)
